@@ -211,6 +211,10 @@ def run_binary(binary, cases, tag):
     write_cases(path, cases)
     with open(path) as f:
         r = subprocess.run([binary], stdin=f, capture_output=True, text=True)
+    dump = os.environ.get("VERIF_DUMP_CASES")   # tools/coverage.py: keep what was fed to the implementation
+    if dump and tag == "impl":
+        import shutil
+        shutil.copy(path, os.path.join(dump, os.path.basename(path)))
     os.unlink(path)
     if r.returncode != 0:
         raise BuildError("%s crashed (rc %d): %s" % (binary, r.returncode, r.stderr[-2000:]))
